@@ -5,7 +5,7 @@
    base0 (cyclic or not, as DeltaSelector may produce when it reuses stored
    deltas) and ANY positive entry sizes (header + deflated payload). *)
 From Coq Require Import List NArith Arith Bool.
-From Coq Require Import ZArith.
+From Coq Require Import ZArith Lia.
 From GoGit Require Import Base.Out Model.Delta Model.PackEnc Model.DeltaSel Proofs.C06Apply Proofs.C06Diff Proofs.C07 Proofs.C07Varint Proofs.C07Acyclic
   Proofs.C07Select Proofs.C07SelResolves.
 Import ListNotations.
@@ -125,6 +125,7 @@ Qed.
 Print Assumptions C07_depth_bound.
 
 (* chains <= maxDepth: when no stored delta is reused (any window; memory storage, or nothing stored as a delta)
+   every delta points to an object of the same (blob or tree) type in the returned list whose Depth is below maxDepth,
    the recorded Depth of every object is the true length of its delta chain, at most maxDepth; the graph handed to
    the encoder is acyclic (Depth decreases along Base), so the encoder keeps every chosen base
    (C07_acyclic_keeps_deltas) and the chains IN THE PACK are at most maxDepth long *)
@@ -132,6 +133,9 @@ Theorem C07_depth_bound_chains_partial : forall window objs order dsz st ord,
   (forall b t, (0 <= dsz b t)%Z) -> sizes_ok objs = true -> no_reuse_b objs = true ->
   select window objs order dsz = inl (st, ord) ->
   let base0 := base_fun (sel_nodes objs st ord) in
+  (forall u b, sb st u = Some b ->
+     In u ord /\ In b ord /\ sd st u = (sd st b + 1)%Z /\ (sd st b < maxDepth)%Z /\
+     so_typ (obj_at objs b) = so_typ (obj_at objs u) /\ deltable (so_typ (obj_at objs u)) = true) /\
   (forall fuel u, (Z.of_nat (chain_len (sb st) fuel u) <= maxDepth)%Z) /\
   (forall fuel u, (Z.to_nat (sd st u) <= fuel)%nat -> Z.of_nat (chain_len (sb st) fuel u) = sd st u) /\
   (forall fuel k, (Z.of_nat (chain_len base0 fuel k) <= maxDepth)%Z) /\
@@ -140,7 +144,11 @@ Proof.
   intros window objs order dsz st ord Hd Hs Hn H base0.
   pose proof (select_noreuse_inv window objs order dsz st ord Hd (sizes_ok_spec objs Hs) (no_reuse_b_spec objs Hn) H) as HI.
   destruct (select_noreuse_graph window objs order dsz st ord Hd (sizes_ok_spec objs Hs) (no_reuse_b_spec objs Hn) H) as [Hr Hc].
-  split; [|split; [|split]].
+  split; [|split; [|split; [|split]]].
+  - intros u b Hb. destruct HI as [Ha [Hb' _]]. destruct (in_dec Nat.eq_dec u ord) as [Hi|Hi].
+    + destruct (Hb' u Hi) as [[_ Hu] Hm]. rewrite Hb in Hm. destruct Hm as [M1 [M2 [M3 M4]]].
+      repeat split; auto. rewrite M2 in Hu. lia.
+    + destruct (Ha u Hi) as [E _]. rewrite E in Hb. discriminate.
   - intros fuel u. pose proof (chain_len_le_depth objs ord st HI fuel u) as L.
     destruct HI as [Ha [Hb _]]. destruct (in_dec Nat.eq_dec u ord) as [Hi|Hi].
     + destruct (Hb u Hi) as [[_ Hu] _]. eapply Z.le_trans; eassumption.
